@@ -327,7 +327,11 @@ func c06L2Session(t *testing.T, rec *vlib.Rec, idx int, c *c06Case) (obs *c06Obs
 		if s.taw {
 			taw = 1
 		}
-		rec.Violation(fmt.Sprintf("c06:%s:%s:taw%d:tables-disagree", fam, s.pt, taw),
+		key := fmt.Sprintf("c06:%s:%s:taw%d:tables-disagree", fam, s.pt, taw)
+		if fam == "pair" {
+			key = fmt.Sprintf("c06:pair:tables-disagree:%s:taw%d", s.pt, taw)
+		}
+		rec.Violation(key,
 			fmt.Sprintf("layer 2, %s session, faults %s: adj-in, global table and the third peer's view disagree: %s", s, c.faultIDs(), strings.Join(third3, "; ")), c.witness(idx, o))
 	}
 	return o, true
